@@ -72,10 +72,12 @@ def run_one(worker, pid, k, patch, meta, checks):
 
 def main():
     args = sys.argv[1:]
-    workers, only, recheck, allc, kept = 4, None, False, False, False
+    workers, only, recheck, allc, kept, wbase = 4, None, False, False, False, 0
     while args and args[0].startswith("--"):
         if args[0] == "--workers":
             workers = int(args[1]); args = args[2:]
+        elif args[0] == "--worker-base":
+            wbase = int(args[1]); args = args[2:]
         elif args[0] == "--only":
             only = set(args[1].split(",")); args = args[2:]
         elif args[0] == "--recheck":
@@ -99,7 +101,7 @@ def main():
                 if os.path.exists(p) and not (only and "%s_%d" % (pid, k) not in only):
                     jobs.append((pid, k, p, "%s%s/out/note%d.md" % (PREFIX, pid, k)))
     jobs.sort(key=lambda j: (j[1], j[0]))
-    for w in range(workers):
+    for w in range(wbase, wbase + workers):
         if not os.path.exists("/tmp/sw_%d" % w):
             sh("git -C /repo worktree add --detach /tmp/sw_%d HEAD -q" % w)
         os.makedirs("/tmp/sw_%d_out" % w, exist_ok=True)
@@ -142,7 +144,7 @@ def main():
             with lock:
                 print(pid, k, meta.get("suite_with_patch"), [(r["check"], "ALARM" if r["alarm"] else "quiet", r.get("no_failing_input")) for r in meta["ran"]],
                       meta.get("error", ""), flush=True)
-    ts = [threading.Thread(target=work, args=(w,)) for w in range(workers)]
+    ts = [threading.Thread(target=work, args=(w,)) for w in range(wbase, wbase + workers)]
     for t in ts:
         t.start()
     for t in ts:
